@@ -38,6 +38,7 @@ type Program struct {
 	errorType   types.Type
 	Trace       bool
 	Tier        string
+	RetryAttempts int
 	apiFuncs    map[*ssa.Function]externalFn
 	typeMu      sync.Mutex
 	typeCache   map[string]types.Type
